@@ -657,7 +657,8 @@ class J1939_22:
         elif control_byte == self.TpControlType.ABORT:
             # if abort received before transmission established -> cancel transmission
             buffer_hash = self._buffer_hash(session_num, dest_address, src_address)
-            if buffer_hash in self._snd_buffer and self._snd_buffer[buffer_hash]['state'] == self.SendBufferState.WAITING_CTS:
+            # (the abort names its connection by PGN: the peer may be giving up a transfer of its own)
+            if buffer_hash in self._snd_buffer and self._snd_buffer[buffer_hash]['pgn'] == pgn and self._snd_buffer[buffer_hash]['state'] == self.SendBufferState.WAITING_CTS:
                 # cancel transmission
                 self._snd_buffer[buffer_hash]['state'] = self.SendBufferState.TRANSMISSION_FINISHED
                 self._snd_buffer[buffer_hash]['deadline'] = time.time()
